@@ -5,13 +5,13 @@
 prop=$1; src=$2; shift 2; extra="$@"
 n=$(basename $src)
 dst=/verif/seeded/$prop-$n
-cd /repo || exit 2
+if [ "${PHASE:-both}" = confirm ]; then cd $(dirname $(dirname $src))/repo && git checkout -q -- . && git clean -fdq crates; else cd /repo; fi || exit 2
 if ! git diff --quiet; then echo "repo dirty"; exit 2; fi
 if ! git apply --check $src/patch.diff 2>/dev/null; then echo "PATCH DOES NOT APPLY: $src"; exit 3; fi
 mkdir -p $dst; cp -r $src/* $dst/
 # --- confirm the seeding agent's claims in its scratch worktree -------------------------------------------
 wt=$(dirname $(dirname $src))/repo
-if [ -d $wt ]; then
+if [ -d $wt ] && [ "${PHASE:-both}" != check ]; then
   crate=$(python3 -c "
 import json,re
 m=json.load(open('$src/meta.json'))
@@ -34,19 +34,20 @@ print(r.group(1) if r else '')")
   (
     cd $wt && git checkout -q -- . && git clean -fdq crates
     if [ -n "$crate" ] && [ -f $src/demo.rs ]; then
-      rundemo >/tmp/seedcheck-demo-clean.log 2>&1; echo "demo on clean tree: exit $? (expected 0)"
+      rundemo >/tmp/seedcheck-$prop-$n-demo-clean.log 2>&1; echo "demo on clean tree: exit $? (expected 0)"
       git checkout -q -- . ; git clean -fdq crates
     else
       echo "demo: cannot determine crate / no demo.rs"
     fi
     git apply $src/patch.diff
-    cargo test --workspace --offline >/tmp/seedcheck-tests.log 2>&1; echo "existing tests with patch: exit $? (expected 0)"
+    cargo test --workspace --offline >/tmp/seedcheck-$prop-$n-tests.log 2>&1; echo "existing tests with patch: exit $? (expected 0)"
     if [ -n "$crate" ] && [ -f $src/demo.rs ]; then
-      rundemo >/tmp/seedcheck-demo-patched.log 2>&1; echo "demo with patch: exit $? (expected non-zero: 101 = test failure)"
+      rundemo >/tmp/seedcheck-$prop-$n-demo-patched.log 2>&1; echo "demo with patch: exit $? (expected non-zero: 101 = test failure)"
     fi
     git checkout -q -- . ; git clean -fdq crates
   ) | tee $dst/confirm.txt
 fi
+[ "${PHASE:-both}" = confirm ] && exit 0
 cd /repo
 git apply $src/patch.diff
 {
